@@ -22,6 +22,25 @@ def _table(rep, tier, seed, replay_in=None):
                      distinct_key=lambda e: [e["w"], e.get("ids"), e.get("a"), e.get("b")])
 
 
+def _proof(rep):
+    """Unbounded totals: the arithmetic core (intersection > f, quorum has honest, attainable) for ALL natural W by TLAPS."""
+    import re, subprocess
+    wd = vlib.scratch_dir("c06p")
+    try:
+        shutil.copyfile(os.path.join(vlib.SPEC, "QuorumLemma.tla"), os.path.join(wd, "QuorumLemma.tla"))
+        try:
+            p = subprocess.run(["tlapm", "--threads", "8", "QuorumLemma.tla"], cwd=wd, stdout=subprocess.PIPE, stderr=subprocess.STDOUT, text=True, timeout=300)
+        except (OSError, subprocess.TimeoutExpired) as e:
+            raise vlib.Inconclusive("tlapm did not run: %s" % e)
+        m = re.search(r"All (\d+) obligations? proved", p.stdout)
+        if not m:
+            raise vlib.Inconclusive("tlapm did not prove QuorumLemma.tla:\n" + p.stdout[-1500:])
+        rep.extra["tlaps_obligations_proved"] = int(m.group(1))
+        rep.parts.append({"what": "QuorumLemma.tla (TLAPS, SMT): Intersect, QuorumHasHonest, Attainable for all natural totals", "obligations": int(m.group(1))})
+    finally:
+        shutil.rmtree(wd, ignore_errors=True)
+
+
 def run(tier, seed):
     rep = vlib.Report(PID, tier, seed)
     rep.assumptions = ["weight totals fit in 64 bits (as the property states)",
@@ -32,6 +51,7 @@ def run(tier, seed):
     if r.violated:
         raise vlib.Inconclusive("design-level laws fail in Quorum.tla itself (%s): spec bug" % r.violated)
     rep.add_tlc(r, "Quorum.tla laws on every weight vector (%s)" % cfg)
+    _proof(rep)
     _table(rep, tier, seed)
     return rep.finish()
 
